@@ -6,7 +6,8 @@ import vflib
 from checks.common import run_components, finish_standard, replay_standard
 
 COMPONENTS = [
-    {'name': 'c05', 'oracle': False, 'what': 'lossy stills (VP8 + every ALPH variant, simple and VP8X containers) through read_image vs libwebp no-fancy'},
+    {'name': 'c05', 'oracle': True, 'what': 'lossy stills (VP8 + every ALPH variant, simple and VP8X containers): read_image vs Spec.Still (composed Coq spec) and vs libwebp no-fancy',
+     'normalise': lambda s: 'ERR' if (s.startswith('ERR') or s.startswith('Err') or s.startswith('error')) else s},
     {'name': 'c13', 'oracle': True, 'what': 'fill_rgb / fill_rgba planes', 'normalise': lambda s: s.replace(' SPECDIFF', '')},
     {'name': 'alpha', 'oracle': True, 'what': 'alpha application loop', 'normalise': lambda s: s.replace(' SPECDIFF', '')},
 ]
